@@ -1,0 +1,171 @@
+//go:build verif
+
+package influxql
+
+import "fmt"
+
+// Verification hooks, compiled only with the "verif" build tag. They shadow
+// the two push-back rings of the scanner (tokens in bufScanner, runes in
+// reader) and
+//
+//   - assert that a push-back never reaches deeper than the ring or than the
+//     history actually stored in it (a stale slot would otherwise be replayed
+//     silently as a token or rune),
+//   - count how many runes have been taken from the underlying source, so a
+//     monitor can measure token extents independently of reported positions,
+//   - count scanner steps and stop a parse that exceeds a step budget, which
+//     turns hangs and super-linear re-scanning into deterministic failures.
+//
+// The state lives inside the object it shadows, so it is exactly as
+// goroutine-confined as that object.
+
+// VerifHookViolation is the panic value raised by a failed hook assertion.
+type VerifHookViolation struct {
+	Where string
+	N     int
+	Limit int
+}
+
+func (v VerifHookViolation) Error() string {
+	return fmt.Sprintf("verif hook violation: %s: push-back depth %d exceeds %d", v.Where, v.N, v.Limit)
+}
+
+// VerifBudgetExceeded is the panic value raised when the step budget is used up.
+type VerifBudgetExceeded struct {
+	Steps  int64
+	Budget int64
+}
+
+func (v VerifBudgetExceeded) Error() string {
+	return fmt.Sprintf("verif step budget exceeded: %d steps > budget %d", v.Steps, v.Budget)
+}
+
+type verifScanState struct {
+	stored int   // tokens ever stored in the ring
+	calls  int64 // scanFunc calls
+	maxN   int   // deepest push-back observed
+	budget int64 // 0 = unlimited
+}
+
+type verifReadState struct {
+	fresh  int64 // runes (and EOF markers) taken from the underlying source
+	calls  int64 // read calls
+	maxN   int   // deepest push-back observed
+	budget int64 // 0 = unlimited
+}
+
+func verifMin(a, b int) int {
+	if a < b {
+		return a
+	}
+	return b
+}
+
+func (s *bufScanner) verifCheck(where string) {
+	if s.n > s.vs.maxN {
+		s.vs.maxN = s.n
+	}
+	// s.n tokens are pushed back; the slot read next is n-1 behind the newest.
+	// At most len(buf) slots exist and at most vs.stored were ever filled.
+	if limit := verifMin(len(s.buf), s.vs.stored); s.n > limit {
+		panic(VerifHookViolation{Where: where, N: s.n, Limit: limit})
+	}
+}
+
+func (s *bufScanner) verifOnScan() {
+	s.vs.calls++
+	if s.vs.budget > 0 && s.vs.calls > s.vs.budget {
+		panic(VerifBudgetExceeded{Steps: s.vs.calls, Budget: s.vs.budget})
+	}
+	s.verifCheck("bufScanner.scanFunc")
+	if s.n == 0 {
+		s.vs.stored++
+	}
+}
+
+func (s *bufScanner) verifOnCurr() {
+	// curr() reads slot i-n; valid only for n < len(buf) and n < stored.
+	if s.n > s.vs.maxN {
+		s.vs.maxN = s.n
+	}
+	if limit := verifMin(len(s.buf), s.vs.stored); s.n >= limit && s.vs.stored > 0 {
+		panic(VerifHookViolation{Where: "bufScanner.curr", N: s.n, Limit: limit - 1})
+	}
+}
+
+func (r *reader) verifCheck(where string) {
+	if r.n > r.vs.maxN {
+		r.vs.maxN = r.n
+	}
+	limit := len(r.buf)
+	if r.vs.fresh < int64(limit) {
+		limit = int(r.vs.fresh)
+	}
+	if r.n > limit {
+		panic(VerifHookViolation{Where: where, N: r.n, Limit: limit})
+	}
+}
+
+func (r *reader) verifOnRead() {
+	r.vs.calls++
+	if r.vs.budget > 0 && r.vs.calls > r.vs.budget {
+		panic(VerifBudgetExceeded{Steps: r.vs.calls, Budget: r.vs.budget})
+	}
+	r.verifCheck("reader.read")
+}
+
+func (r *reader) verifOnFresh() { r.vs.fresh++ }
+
+func (r *reader) verifOnUnread() { r.verifCheck("reader.unread") }
+
+func (r *reader) verifOnCurr() {
+	// curr() reads slot i-n. Only the ring depth is asserted here: scanString
+	// and ScanRegex deliberately look at the slot behind the current rune, which
+	// at the very start of the input has never been filled (its zero value is
+	// position 0:0, so nothing stale can be observed there).
+	if r.n > r.vs.maxN {
+		r.vs.maxN = r.n
+	}
+	if r.n >= len(r.buf) {
+		panic(VerifHookViolation{Where: "reader.curr", N: r.n, Limit: len(r.buf) - 1})
+	}
+}
+
+// VerifConsumed reports how many runes the scanner has consumed from its
+// source net of push-back: fresh reads (CRLF and lone CR count once, each
+// EOF marker read counts once) minus the runes currently pushed back.
+func (s *Scanner) VerifConsumed() int { return int(s.r.vs.fresh) - s.r.n }
+
+// VerifStats describes what the hooks observed on one parser.
+type VerifStats struct {
+	ScanCalls       int64
+	ReadCalls       int64
+	FreshRunes      int64
+	TokensStored    int
+	MaxTokPushback  int
+	MaxRunePushback int
+}
+
+// VerifSetBudget bounds the number of scanFunc calls and of rune reads the
+// parser may make; exceeding either panics with VerifBudgetExceeded.
+func VerifSetBudget(p *Parser, n int64) {
+	p.s.vs.budget = n
+	p.s.s.r.vs.budget = n
+}
+
+// VerifParserStats returns the hook counters of a parser.
+func VerifParserStats(p *Parser) VerifStats {
+	return VerifStats{
+		ScanCalls:       p.s.vs.calls,
+		ReadCalls:       p.s.s.r.vs.calls,
+		FreshRunes:      p.s.s.r.vs.fresh,
+		TokensStored:    p.s.vs.stored,
+		MaxTokPushback:  p.s.vs.maxN,
+		MaxRunePushback: p.s.s.r.vs.maxN,
+	}
+}
+
+// VerifScannerStats returns the rune-level hook counters of a scanner.
+func (s *Scanner) VerifScannerStats() VerifStats {
+	return VerifStats{ReadCalls: s.r.vs.calls, FreshRunes: s.r.vs.fresh, MaxRunePushback: s.r.vs.maxN}
+}
